@@ -92,8 +92,13 @@ func scnC07Sshd(rc *RunCtx) {
 	m := GenSshdMsg(t, form, 1+t.Choose(9, "uniq"))
 	if t.Choose(10, "pid.odd") == 9 {
 		// what rsyslog puts into %PROCID% is not always a number
-		m.PID = []string{"-", "sshd", "99999999999999999999", "0017", "+5"}[t.Choose(5, "pid.odd.token")]
+		m.PID = []string{"-", "sshd", "99999999999999999999", "0017", "+5", ""}[t.Choose(6, "pid.odd.token")]
 		rc.Sim.Count("c07.odd_pid_token")
+	}
+	if !m.Accepted && t.Choose(10, "msg.trailing.ws") == 9 {
+		// the message's own text ends in white space (or starts with a tab): part of the message
+		m.Msg = []string{m.Msg + " ", m.Msg + "\t", m.Msg + " \r", "\t" + m.Msg}[t.Choose(4, "msg.ws.kind")]
+		rc.Sim.Count("c07.message_with_outer_whitespace")
 	}
 	pad := t.Choose(3, "pad")
 	line := m.Line(pad)
